@@ -69,10 +69,13 @@ inductive StartTagRes
   deriving Repr, Inhabited
 
 /-- What `handle_token` + `Token::into_bytes` amount to: the chunks the (possibly mutated) token is
-serialised into, and an optional request to switch the document encoding (meta charset). -/
+serialised into, an optional request to switch the document encoding (meta charset), and an optional
+failure: of the handler itself (then nothing was serialised) or of a streaming content handler in
+the middle of the serialisation (then `chunks` is what had been written before it failed). -/
 structure TokenOut where
   chunks : List Bytes
   nextEncoding : Option Nat := none
+  err : Option Err := none
   deriving Repr, Inhabited
 
 /-- `TransformController` (dispatcher.rs:33) as a record of functions. -/
@@ -81,11 +84,12 @@ structure Controller (γ : Type) where
   startTag : γ → LocalName → Ns → γ × StartTagRes
   auxInfo : γ → AuxInfo → γ × Except Err Flags
   endTag : γ → LocalName → γ × Flags
-  /-- `handle_token` followed by serialisation. `.error` = the handler (or a streaming content
-  handler during serialisation) failed. -/
-  token : γ → Token → γ × Except Err TokenOut
+  /-- `handle_token` followed by serialisation. -/
+  token : γ → Token → γ × TokenOut
   shouldEmit : γ → Bool
-  handleEnd : γ → γ × Except Err (List Bytes)
+  /-- `handle_end`: content appended at document end (written straight to the sink) and whether an
+  end handler failed after that. -/
+  handleEnd : γ → γ × List Bytes × Option Err
   bailOut : γ → Err → γ × List Bytes
 
 /-- `Dispatcher` + `DispatcherDelegate` (dispatcher.rs:60-76) -/
@@ -102,8 +106,6 @@ structure Disp (γ : Type) where
   textPendingStart : Nat := 0       -- pending_source_location_bytes_start
   encoding : Nat := 0
   nextEncoding : Option Nat := none
-  /-- ghost: how many times `run_bail_out_handlers` ran -/
-  bailOutRuns : Nat := 0
   deriving Repr, Inhabited
 
 variable {γ : Type}
@@ -157,16 +159,18 @@ def Disp.noteNextEncoding (d : Disp γ) : Option Nat → Disp γ
   | some e => if d.nextEncoding.isNone then { d with nextEncoding := some e } else d
   | none => d
 
-/-- serialised token bytes reach the sink only while emission is enabled (dispatcher.rs:137) -/
+/-- serialised token bytes reach the sink only while emission is enabled, and never as a
+zero-length chunk (dispatcher.rs:137: empty pieces are skipped) -/
 def Disp.pushChunks (d : Disp γ) (cs : List Bytes) : Disp γ :=
-  if d.emissionEnabled then { d with sink := d.sink ++ cs.map .chunk } else d
+  if d.emissionEnabled then { d with sink := d.sink ++ (cs.filter (fun c => !c.isEmpty)).map .chunk } else d
 
 /-- `token_produced` / `text_token_produced` (dispatcher.rs:132-167) -/
 def Disp.tokenProduced (ctl : Controller γ) (d : Disp γ) (t : Token) : DRes γ Unit :=
-  match (ctl.token d.ctl t).2 with
-  | .error e => ({ d with ctl := (ctl.token d.ctl t).1 }, .error e)
-  | .ok out =>
-    ((({ d with ctl := (ctl.token d.ctl t).1 }).noteNextEncoding out.nextEncoding).pushChunks out.chunks, .ok ())
+  let out := (ctl.token d.ctl t).2
+  let d' := (({ d with ctl := (ctl.token d.ctl t).1 }).noteNextEncoding out.nextEncoding).pushChunks out.chunks
+  match out.err with
+  | some e => (d', .error e)
+  | none => (d', .ok ())
 
 /-- `flush_encoding_change` (dispatcher.rs:207) -/
 def Disp.flushEncodingChange (d : Disp γ) : Disp γ :=
@@ -359,15 +363,15 @@ def dispOps (ctl : Controller γ) : SinkOps (Disp γ) :=
 /-- `run_bail_out_handlers` (dispatcher.rs:372) -/
 def Disp.runBailOut (ctl : Controller γ) (d : Disp γ) (e : Err) : Disp γ :=
   let r := ctl.bailOut d.ctl e
-  { d with ctl := r.1, sink := d.sink ++ r.2.map .chunk, bailOutRuns := d.bailOutRuns + 1 }
+  { d with ctl := r.1, sink := d.sink ++ r.2.map .chunk }
 
 /-- `finish` (dispatcher.rs:98): flush, `handle_end`, then the zero-length chunk. -/
 def Disp.finish (ctl : Controller γ) (d : Disp γ) (input : Bytes) : DRes γ Unit :=
   (DRes.ofExcept d (d.flushRemaining input input.length)).bind fun d _ =>
   let r := ctl.handleEnd d.ctl
-  let d := { d with ctl := r.1 }
-  match r.2 with
-  | .error e => (d, .error e)
-  | .ok chunks => ({ d with sink := d.sink ++ chunks.map .chunk ++ [.chunk []] }, .ok ())
+  let d := { d with ctl := r.1, sink := d.sink ++ r.2.1.map .chunk }
+  match r.2.2 with
+  | some e => (d, .error e)
+  | none => ({ d with sink := d.sink ++ [.chunk []] }, .ok ())
 
 end LolHtml.Model
